@@ -51,6 +51,7 @@ package cache
 //@   ensures [lock-frame] c != nil ==> lockFrame(c)
 //@   ensures [timer-frame] c != nil ==> timerFrame(c)
 //@   ensures [timer-id] c != nil ==> c.timer == nil || c.timer == old(c.timer) || fresh(c.timer)
+//@   ensures [maps-frame] c != nil ==> frame_maps_but(k, Ref, c.entries)
 //@   ensures [lock-released] c != nil ==> !held(c.mu)
 //@   ensures [inv] c != nil ==> cacheInv(c)
 //@   ensures [cleanup-before-removal] c != nil ==> removedCleaned(c)
@@ -86,6 +87,7 @@ package cache
 //@   ensures [lock-frame] c != nil ==> lockFrame(c)
 //@   ensures [timer-frame] c != nil ==> timerFrame(c)
 //@   ensures [timer-id] c != nil ==> c.timer == nil || c.timer == old(c.timer) || fresh(c.timer)
+//@   ensures [maps-frame] c != nil ==> frame_maps_but(k, Ref, c.entries)
 //@   ensures [lock-released] c != nil ==> !held(c.mu)
 //@   ensures [inv] c != nil ==> cacheInv(c)
 //@   ensures [found] c != nil && old(key in c.entries) ==> err == nil && val == old(c.entries[key].value) && c.entries[key].used >= old(clock())
@@ -99,6 +101,7 @@ package cache
 //@   ensures [lock-frame] c != nil ==> lockFrame(c)
 //@   ensures [timer-frame] c != nil ==> timerFrame(c)
 //@   ensures [timer-id] c != nil ==> c.timer == nil || c.timer == old(c.timer) || fresh(c.timer)
+//@   ensures [maps-frame] c != nil ==> frame_maps_but(k, Ref, c.entries)
 //@   ensures [lock-released] c != nil ==> !held(c.mu)
 //@   ensures [exact] c != nil ==> (empty <==> len(c.entries) == 0)
 
@@ -109,6 +112,7 @@ package cache
 //@   ensures [lock-frame] c != nil ==> lockFrame(c)
 //@   ensures [timer-frame] c != nil ==> timerFrame(c)
 //@   ensures [timer-id] c != nil ==> c.timer == nil || c.timer == old(c.timer) || fresh(c.timer)
+//@   ensures [maps-frame] c != nil ==> frame_maps_but(k, Ref, c.entries)
 //@   ensures [lock-released] c != nil ==> !held(c.mu)
 //@   ensures [inv] c != nil ==> cacheInv(c)
 //@   ensures [stored] c != nil ==> (key in c.entries) && c.entries[key].value == val && c.entries[key].used >= old(clock())
